@@ -1116,7 +1116,10 @@ class ShardedPipelines(_CHarness):
                         {'got': repr(val), 'want': repr(ref_agg)}))
     else:
       e = self.end[1]
-      exhausted = p['retry'] is not None and len(faults) > p['retry']
+      # one dead worker can cost several retries (the task is re-sent to it
+      # until it is detected dead), so a kill may exhaust a small budget
+      exhausted = p['retry'] is not None and (
+          len(faults) > p['retry'] or (bool(killed) and 'Too many Timeouts' in str(e)))
       if usable > 0 and not exhausted:
         out.append((f'{prop}:sharded:unexpected-error-with-usable-worker:{fault}:{cfg}',
                     {'end': repr(e), 'calls': self.after['calls']}))
